@@ -468,6 +468,93 @@ def option_case(ctx, tri, wire, impl_default, opt, stat_fields, reqs, cases):
         cases.append((case, impl))
 
 
+def plot_option_combos():
+    """(method, kwargs) for every keyword option of every Triangle.plot_* method whose documented value set is finite,
+    read from the signatures: a bool option with the NON-default value, a Literal[...] option with every listed value
+    (together with uncertainty=True where the method has that switch); one option varied at a time"""
+    import ast
+    import inspect
+    out = []
+    for n in sorted(x for x in dir(Triangle) if x.startswith("plot_")):
+        sig = inspect.signature(getattr(Triangle, n))
+        for prm in sig.parameters.values():
+            ann = str(prm.annotation)
+            if ann == "bool" and isinstance(prm.default, bool):
+                out.append((n, {prm.name: not prm.default}))
+            elif ann.startswith("Literal["):
+                try:
+                    vals = ast.literal_eval(ann[len("Literal"):])
+                except (ValueError, SyntaxError):
+                    continue
+                for v in vals:
+                    kw = {prm.name: v}
+                    if "uncertainty" in sig.parameters and prm.name != "uncertainty":
+                        kw["uncertainty"] = True
+                    if v == "spaghetti" and "n_lines" in sig.parameters:
+                        kw["n_lines"] = 2
+                    out.append((n, kw))
+    return out
+
+
+def quantile_table():
+    """the live quantile levels as exact fractions"""
+    return [str(Fraction(x).limit_denominator(1000)) for x in P.FieldSummary.quantiles()]
+
+
+WANT_LEVELS = ["1/40", "1/20", "1/10", "1/5", "1/2", "4/5", "9/10", "19/20", "39/40"]     # q2_5 ... q97_5
+
+
+def check_quantile_table(ctx, when):
+    got = quantile_table()
+    if got != WANT_LEVELS:
+        ctx.fail(f"FieldSummary.quantiles() {when} is no longer the levels the entry names q2_5..q97_5 state",
+                 {"when": when}, {"levels": got, "stated by the names": WANT_LEVELS})
+        return False
+    return True
+
+
+def prime_with_plot_options(ctx, rng, label):
+    """SEQUENCE priming: every (plot method, non-default option value) combination is called once in THIS process on
+    a small triangle before further build_plot_data calls are judged on fresh triangles. A chart that is returned
+    must be a valid Vega-Lite spec with one facet per slice; a combination that raises is listed in the evidence
+    (priming is about the state the call leaves behind). Afterwards FieldSummary.quantiles() is read again."""
+    ns = rng.choice([1, 1, 2]) if ctx.thorough else 1
+    for _ in range(12):       # observed scalars + predicted samples (an all-sample triangle is outside the plots' domain)
+        cells, desc = rand_triangle_cells(rng, n_slices=ns, small=True, for_plot=True)
+        if desc["style"] == "mixed":
+            break
+    if not ctx.thorough:      # quick: two periods only (altair deep-copies the embedded data per layer)
+        keep = sorted({c.period for c in cells})[:2]
+        cells = [c for c in cells if c.period in keep]
+    tri = Triangle(cells)
+    case0 = {"cells": w_cells(tri.cells)}
+    raised = {}
+    for k, (name, kw) in enumerate(plot_option_combos()):
+        if not ctx.thorough and name in HEAVY_PLOTS and (k + ctx.seed) % 3:
+            continue          # quick: the three slowest chart builders with a rotating third of their combinations
+        with warnings.catch_warnings():
+            warnings.simplefilter("ignore")
+            st, chart = call(lambda: getattr(tri, name)(**kw))
+        ctx.evaluations += 1
+        if st != "ok":
+            raised[f"{name}({kw})"] = chart
+            ctx.count(f"priming/{label}/raised")
+            continue
+        ctx.count(f"priming/{label}/chart built")
+        with warnings.catch_warnings():
+            warnings.simplefilter("ignore")
+            st2, spec = call(lambda: chart.to_dict(validate=True))
+        case = {"plot": name, "kwargs": kw, **case0}
+        if st2 != "ok":
+            ctx.fail(f"{name}({kw}): chart does not serialise to a valid Vega-Lite specification", case, spec)
+        elif "vega-lite" not in str(spec.get("$schema")) or count_facets(spec) != len(tri.slices):
+            ctx.fail(f"{name}({kw}): {count_facets(spec)} facets for {len(tri.slices)} slices / not Vega-Lite", case)
+    if raised and not getattr(ctx, "_prime_noted", False):
+        ctx._prime_noted = True
+        ctx.notes.append(f"priming: option combinations that raise on this tree (not judged): {raised}")
+    check_quantile_table(ctx, f"after the plot-option priming calls ({label})")
+
+
 def rescale(v):
     """another value of the same kind, shape and dtype (exact: small integers / dyadics times 3 plus 1)"""
     if v is None:
@@ -803,14 +890,20 @@ def correspondence(ctx):
     reqs, cases = [], []
     import time
     t_start = time.time()
+    check_quantile_table(ctx, "at the start of the run")
     for i in range(n):
+        if i == 6 or (ctx.thorough and i % 400 == 6):
+            # from here on every build_plot_data call is judged AFTER plot entry points ran with non-default options
+            prime_with_plot_options(ctx, rng, f"before case {i}")
         if i == 8 or (ctx.thorough and i % 150 == 8):
             # 1000 posterior draws per cell on a small one-slice triangle. The compiled model needs ~4 s per such
             # cell (exact rationals), so these records are judged by the stdlib re-statement only (py_spec:
             # percentiles recomputed with fractions), not sent to the driver
             cells, desc = rand_triangle_cells(rng, n_slices=1, force_samples=1000)
+            cells = cells[:5]          # any subset of cells is a valid triangle; keeps the exact re-statement fast
         elif i == 12 or (ctx.thorough and i % 150 == 12):
             cells, desc = rand_triangle_cells(rng, n_slices=rng.choice([1, 2]), force_samples=200)
+            cells = cells[:10]
         else:
             cells, desc = rand_triangle_cells(rng, small=ctx.thorough and rng.random() < 0.5)
         tri = Triangle(cells)
@@ -922,6 +1015,19 @@ def correspondence(ctx):
     t_cmp = time.time()
     plot_checks(ctx, rng)
     ctx.notes.append(f"timing: plot checks {time.time() - t_cmp:.1f}s")
+    # END of the run: the live quantile levels, and the table the translator would write NOW, must still be what
+    # the theorems were proved against at the start (Generated/Plot.lean)
+    check_quantile_table(ctx, "at the end of the run")
+    try:
+        import translate
+        body = translate.SECTIONS["Plot"]()
+        on_disk = open(os.path.join(translate.GEN_DIR, "Plot.lean")).read()
+        if body.strip() not in on_disk:
+            ctx.fail("the plot tables regenerated at the END of the run differ from Generated/Plot.lean written at its "
+                     "start (a table of the library was mutated during the run)", {"when": "end of run"},
+                     {"regenerated now": body.strip()[:600]})
+    except (ImportError, KeyError, OSError) as e:
+        ctx.notes.append(f"end-of-run table comparison not possible: {e!r}")
 
 
 if __name__ == "__main__":
